@@ -16,6 +16,7 @@ import shutil
 import subprocess
 import sys
 import threading
+from concurrent.futures import ThreadPoolExecutor
 
 sys.path.insert(0, os.path.dirname(os.path.abspath(__file__)))
 import vlib
@@ -787,9 +788,12 @@ class Runner:
         return observed(rc, out, err)
 
     def run_all(self, s, opts=OPTS):
+        """all levels of one source at once (used by attribution and shrinking, which are sequential otherwise)"""
+        self.materialise(s)
         res = {}
-        for o in opts:
-            res.update(self.run_level(s, o))
+        with ThreadPoolExecutor(max_workers=len(opts)) as ex:
+            for r in ex.map(lambda o: self.run_level(s, o), opts):
+                res.update(r)
         return res
 
 
@@ -1091,6 +1095,8 @@ def main():
         gold_all = len(gold)
     sources += gold
     # ---------------- run: one job per (source, -O level)
+    for s in sources:
+        rn.materialise(s)
     jobs = [(i, o) for i in range(len(sources)) for o in OPTS]
 
     def job(io):
